@@ -106,9 +106,12 @@ func Mutate(t *rapid.T, s string, others []string, frags []string) string {
 
 // Hostile fragment alphabets per language.
 var Frags = map[string][]string{
-	"css":  {"a", "b", "-", "--", "--x", "{", "}", "(", ")", "[", "]", ":", ";", ",", "@media", "@import", "@x", "@", "#", "#a", ".", "1", "1.", "1e", "1e+", "+", "%", "px", "u+", "U+1-", "u+??", "url(", "URL(", "url( ", ")", "\"", "'", "\\", "\\41 ", "\\\n", "\n", "\r\n", "\f", " ", "\t", "/*", "*/", "/", "<!--", "-->", "~=", "|=", "||", "|", "*", "*color", "!important", "!", ">", "+", "~", "=", "é", "\xc3", "\xf0\x9f", "\x00", "\x00\x00", "\x7f", "\x1f", "a:b", "a{b:c}", "@media x{", "a{*", "\\0", "$="},
-	"html": {"<a", "<A", "<b c=d", "<script", "<SCRIPT>", "<style>", "<svg", "<math>", "<title>", "<textarea>", "<plaintext>", "<xmp>", "<iframe>", "<xml>", ">", "/>", "/", "</a>", "</script>", "</SCRIPT", "</svg>", "</math >", "</", "</ ", "</>", " b=c", " d='e'", " f=\"g\"", " h", "=", "'", "\"", "<!--", "-->", "--!>", "--", "<!DOCTYPE", "<!doctype html>", "<![CDATA[", "]]>", "<?", "?>", "<!", "<%", "%>", "{{", "}}", "text", " ", "\n", "\t", "\f", "\r", "\x00", "é", "\xc3", "<", "&amp;", "<script><!--", "<script>", "\\"},
-	"xml":  {"<a", "<b:c", ">", "/>", "?>", "</a>", "</a", "</", " x='1'", " y=\"2\"", " z", "=", "'", "\"", "<!--", "-->", "--", "<![CDATA[", "]]>", "]]", "<?xml", "<?pi", "<?", "<!DOCTYPE", "<!DOCTYPE a [", "[", "]", "]>", "<!ENTITY", "<!", "text", " ", "\n", "\t", "\r", "\x00", "é", "\xc3", "<", "&amp;", "/", "?"},
+	"css": {"a", "b", "-", "--", "--x", "{", "}", "(", ")", "[", "]", ":", ";", ",", "@media", "@import", "@x", "@", "#", "#a", ".", "1", "1.", "1e", "1e+", "+", "%", "px", "u+", "U+1-", "u+??", "url(", "URL(", "url( ", ")", "\"", "'", "\\", "\\41 ", "\\\n", "\n", "\r\n", "\f", " ", "\t", "/*", "*/", "/", "<!--", "-->", "~=", "|=", "||", "|", "*", "*color", "!important", "!", ">", "+", "~", "=", "é", "\xc3", "\xf0\x9f", "\x00", "\x00\x00", "\x7f", "\x1f", "a:b", "a{b:c}", "@media x{", "a{*", "\\0", "$="},
+	"html": {"<a", "<A", "<b c=d", "<script", "<SCRIPT>", "<style>", "<svg", "<math>", "<title>", "<textarea>", "<plaintext>", "<xmp>", "<iframe>", "<xml>", ">", "/>", "/", "</a>", "</script>", "</SCRIPT", "</svg>", "</math >", "</", "</ ", "</>", " b=c", " d='e'", " f=\"g\"", " h", "=", "'", "\"", "<!--", "-->", "--!>", "--", "<!DOCTYPE", "<!doctype html>", "<![CDATA[", "]]>", "<?", "?>", "<!", "<%", "%>", "{{", "}}", "text", " ", "\n", "\t", "\f", "\r", "\x00", "é", "\xc3", "<", "&amp;", "<script><!--", "<script>", "\\",
+		// regions with upper-case content glued to names, end tags whose name goes on, abrupt comments, nested and self-closing foreign elements
+		"</A{{", "{{ X }}", "</DIV{{.Foo}}>", "<%= Y %>", "<? Z ?>", "</B<%", "</svg:g>", "<svg/>", "<!-->", "<!--->", "<svg><svg>", "</textarea0>", "</script-x>", "<svg a='", "<math b=c/>", "<svg><!--", "<svg><![CDATA[", "--!>"},
+	"xml": {"<a", "<b:c", ">", "/>", "?>", "</a>", "</a", "</", " x='1'", " y=\"2\"", " z", "=", "'", "\"", "<!--", "-->", "--", "<![CDATA[", "]]>", "]]", "<?xml", "<?pi", "<?", "<!DOCTYPE", "<!DOCTYPE a [", "[", "]", "]>", "<!ENTITY", "<!", "text", " ", "\n", "\t", "\r", "\x00", "é", "\xc3", "<", "&amp;", "/", "?",
+		"<?p x='", "<?p >", "<?p a/>", "<!DOCTYPE a [<?p", "<?p don't?>", " x=\"?>", "]]]>", "<!DOCTYPE a [<!--"},
 	"json": {"{", "}", "[", "]", ",", ":", `"a"`, `"`, `\`, `\"`, `"\\"`, `"\u00`, "1", "-", "0", "1.5", "1e5", "1e", ".", "true", "false", "null", "nul", "t", " ", "\n", "\r", "\t", "\x00", "é", "\xc3", `"k":`, `{"a":`, "[1,", "]]", "}}", "tru", "-0", "01", "//", "/*"},
 	"js": {"a", "b", "$", "_", "in", "of", "let", "var", "function", "class", "async", "await", "yield", "return", "if", "else", "for", "while", "new", "this", "super", "import", "export", "from", "static", "get", "=>", "...", "..", ".", "?.", "?.5", "??", "??=", ">>>=", ">>>", "**", "**=", "&&=", "||", "!==", "===", "<<=", "++", "--", "-->", "<!--", "~", "~=", "?=", "?", ":", "#", "#a", "#!", "@", "=", "+", "-", "*", "/", "/=", "%", "<", ">", "!", "&", "|", "^", ",", ";",
 		"(", ")", "[", "]", "{", "}", "${", "`", "`a${", "}`", "'", "\"", "'a'", "\"b\"", "'\\", "\\", "\\u0061", "\\u{61}", "\\u{", "\\u00", "1", "1.", ".5", "1e", "1e5", "0x", "0xg", "0x1F", "1n", "1a", "0b2", "00", "08", "1_", "1__0", "1_000", "/*", "*/", "//", "/re/g", "/[/]/", "\n", "\r\n", " ", "\t", "é", "中", "\x00", "\x01", "§", "\xc3", "\xe2\x80", "\xf0\x9f\x98", "\xef\xbb\xbf", "\xe2\x80\xa8", "\xe2\x80\xa9", "\xc2\xa0", "\xe2\x80\x8c",
